@@ -70,6 +70,17 @@ def gen_case(rng: random.Random, tier: str) -> dict:
         if rng.random() < 0.4:
             lines += ["", "################################ Sec " + " ".join(_link_words(rng, link_names)), "- " + " ".join([rng.choice(gen.PLAIN)] + _link_words(rng, link_names))]
         files[n + ".zo"] = "\n".join(lines) + "\n"
+    extra_names: list[str] = []
+    if rng.random() < 0.5:
+        # a template / query page that shares its stem with a page, and links to both
+        stem = rng.choice(names)
+        ext = rng.choice([".zot", ".zoq"])
+        extra_names.append(stem + ext)
+        link_names = link_names + [stem + ext, stem + ext]
+        files[stem + ext] = ("# Stem twin\n#\n# ^ = " + " ".join(_link_words(rng, link_names) or ["x"]) + "\n\n## twin\n\n- " + " ".join(["note"] + _link_words(rng, link_names)) + "\n") if ext == ".zot" else (f"# S note W [[{stem}]] O none\n#\n# SAVED QUERY GENERATED ON 2024-01-01 AT 12:00:00.\n\n- 230101#0z old [[{stem}{ext}]] " + " ".join(_link_words(rng, link_names)) + "\n")
+        # pages written before this point do not link to the twin yet: add a few links
+        for n in rng.sample(names, k=min(2, len(names))):
+            files[n + ".zo"] = files[n + ".zo"].rstrip("\n") + "\n- see " + " ".join(_link_words(rng, [stem + ext, stem, stem + ext]) or [f"[[{stem}{ext}]]"]) + f" [[{stem}{ext}]] [[{stem}]]\n"
     for i in range(rng.randint(0, 2)):
         files[f"tmpl/t{i}.zot"] = "# Template\n#\n# ^ = " + " ".join(_link_words(rng, link_names) or ["x"]) + "\n\n## {{ name }}\n## ^ = " + " ".join(_link_words(rng, link_names) or ["x"]) + "\n\n- " + " ".join(["note"] + _link_words(rng, link_names)) + "\n"
     for i in range(rng.randint(0, 2)):
@@ -94,6 +105,8 @@ def gen_case(rng: random.Random, tier: str) -> dict:
                 "src_ext": rng.random() < 0.25,
                 "dst_ext": rng.random() < 0.25,
                 "back": rng.random() < 0.2,
+                # rename a template / query page instead of a .zo page
+                "non_zo": rng.random() < 0.25,
             }
         )
     return {"world": {"files": files, "dirent": rng.choice(["sorted", "reversed", "shuffled"])}, "steps": steps, "day0": core.EPOCH_DAY + rng.randrange(0, 300)}
@@ -106,8 +119,10 @@ def describe(case: dict) -> Any:
 def expected_after_rename(files: dict[str, bytes], a: str, b: str) -> dict[str, bytes]:
     """Reference model: move the key, retarget exactly the links named `a`."""
     out = {}
+    a_file = a if "." in a.rsplit("/", 1)[-1] else a + ".zo"
+    b_file = b if "." in b.rsplit("/", 1)[-1] else b + ".zo"
     for rel, data in files.items():
-        key = b + ".zo" if rel == a + ".zo" else rel
+        key = b_file if rel == a_file else rel
         if rel.endswith((".zo", ".zot", ".zoq")):
             text = data.decode("utf-8")
 
@@ -138,11 +153,23 @@ def execute(case: dict, scratch: str) -> dict:
         pages = ob.list_pages(sim.zdir)
         if not pages:
             continue
-        for a, b in _pairs(st, pages, prev):
+        others = ob.list_pages(sim.zdir, (".zot", ".zoq"))
+        if st.get("non_zo") and others and not (st.get("back") and prev):
+            src_file = others[st["src"] % len(others)]
+            ext = "." + src_file.rsplit(".", 1)[-1]
+            pairs = [(src_file, st["dst"] + ext)]  # link names of non-.zo files keep their extension
+        else:
+            pairs = _pairs(st, pages, prev)
+        for a, b in pairs:
             before = ob.read_all_files(sim.zdir)
-            if b + ".zo" in before or a == b:
+            b_file = b if "." in b.rsplit("/", 1)[-1] else b + ".zo"
+            if b_file in before or a == b:
                 continue
-            real = {"op": "rename", "src": a + (".zo" if st.get("src_ext") else ""), "dst": b + (".zo" if st.get("dst_ext") else "")}
+            if "." in a.rsplit("/", 1)[-1]:
+                real = {"op": "rename", "src": a, "dst": b}
+                rec.probe("non-zo-file-renamed")
+            else:
+                real = {"op": "rename", "src": a + (".zo" if st.get("src_ext") else ""), "dst": b + (".zo" if st.get("dst_ext") else "")}
             o = sim.run(real)
             rec.proc(real, None, o, sim)
             after = ob.read_all_files(sim.zdir)
@@ -169,7 +196,7 @@ def execute(case: dict, scratch: str) -> dict:
 
 
 def _pairs(st: dict, pages: list[str], prev: Optional[tuple[str, str]]) -> list[tuple[str, str]]:
-    if st.get("back") and prev and prev[1] + ".zo" in pages:
+    if st.get("back") and prev and "." not in prev[1].rsplit("/", 1)[-1] and prev[1] + ".zo" in pages:
         return [(prev[1], prev[0])]
     a = pages[st["src"] % len(pages)][:-3]
     return [(a, st["dst"])]
